@@ -10,6 +10,10 @@ seed = int(os.environ.get("VERIF_SEED", "1") or 1)
 text = open(plog).read()
 lines = text.splitlines()
 first = next((l.strip() for l in lines if "cannot be sent between threads safely" in l or "cannot be shared between threads safely" in l), "")
+if not first:
+    first = next((l.strip() for l in lines if l.startswith("error")), "")
+    detail = next((l.strip() for l in lines if "does not live long enough" in l or "borrowed for" in l or "must outlive" in l or "moved out" in l), "")
+    first = (first + " — " + detail).strip(" —")
 key = "send_sync:" + re.sub(r"[^A-Za-z0-9` ]", "", first)[:80]
 probed = ["FlopExhaustiveEvaluator", "FlopExhaustiveEvaluator::IntoIter", "HandRange", "Showdown", "ShowdownPlayer", "Vec<ShowdownPlayer>",
           "MadeHand", "CardPair", "RankPair", "HandRangeToken", "HandRangeTokenKind", "Card", "Rank", "Suit"]
@@ -23,11 +27,11 @@ os.makedirs(os.path.join(out, "replays"), exist_ok=True)
 os.makedirs(os.path.join(out, "evidence"), exist_ok=True)
 rpath = os.path.join(out, "replays", "C15-%d-send_sync.json" % seed)
 json.dump({"property": "C15", "oracle": "send_sync", "key": key, "seed": str(seed),
-           "detail": "a public type lost Send/Sync: " + first,
+           "detail": "a public value can no longer be moved to / shared with another thread: " + first,
            "replay": {"kind": "c15_sendsync", "diagnostic": lines[:80]}}, open(rpath, "w"), indent=1)
 ev = {"property_id": "C15", "tier": tier, "seed": seed, "level": "exploration",
       "coverage": {"evaluations": len(probed), "distinct_nontrivial": len(probed),
-                   "rule": "compile-time Send+Sync assertions, one per public type (the simulated runs were not reached: the simulator moves live iterators between threads and cannot be built when a type is not Send)",
+                   "rule": "compile-time Send+Sync assertions, one per public type, plus code that moves an evaluator, a live iterator, a range and a showdown into spawned threads (the simulated runs were not reached: the simulator moves live iterators between threads and cannot be built when a type is not Send)",
                    "samples": [{"type": t, "bound": "Send + Sync"} for t in probed], "first_error": first,
                    "replay_files": [] if hit else [rpath]},
       "assumptions": ["only the Send/Sync sentence of C15 was evaluated on this run"],
